@@ -33,7 +33,8 @@ JMatch(cfg, T0, v, o) == LET T == Resolve(T0) IN
     [] T.k = "string" -> o.k = "str" /\ o.b = v
     [] T.k = "bytes" -> o.k = "str" /\ o.b = v.b
     [] T.k \in {"time", "bqtime"} -> o.k = "str" /\
-         ((o.tm.ok /\ o.tm.sec.neg = v.sec.neg /\ o.tm.sec.mag = v.sec.mag /\ o.tm.nsec = v.nsec)
+         ((o.tm.ok /\ o.tm.sec.neg = v.sec.neg /\ o.tm.sec.mag = v.sec.mag
+           /\ o.tm.nsec = (IF T.k = "bqtime" THEN (v.nsec \div 1000) * 1000 ELSE v.nsec))       \* the BigQuery timestamp is in microseconds
           \* finding F21: the descriptor does not say that a ProtoCompatibleTime time is not zig-zag encoded; the walker reads
           \* it as zig-zag and renders some other (possibly unparsable, year > 9999) time
           \/ (cfg.timeAsZigZag /\ cfg.protoTime /\ T.k = "time"))
